@@ -18,7 +18,9 @@ protocol (`lean/DashLive/Driver/Store.lean`):
   ("am", name, title, periods)            PUT    /api/multi-period-streams/.add
   ("mm", urlname, bodypk, name, title, periods)   POST /api/multi-period-streams/<urlname>
   ("xm", name)                            DELETE /api/multi-period-streams/<name>
-periods = tuple of (pk|None, pid, stream_pk, ordering, (track, …)).
+periods = tuple of (pk|None, pid, stream_pk, ordering, (track, …)[, start_us, duration_us, fits]) – start and
+duration in microseconds (0 = the API's default "PT0S"), fits = the verdict the model is given for
+`start + duration <= stream duration` (see period_fits).
 """
 from __future__ import annotations
 
@@ -103,7 +105,8 @@ class World:
             if not ps:
                 return "-"
             return "/".join(",".join([("-" if p[0] is None else str(p[0])), p[1], str(p[2]), str(p[3]),
-                                      "+".join(map(str, p[4])) or "-"]) for p in ps)
+                                      "+".join(map(str, p[4])) or "-"] +
+                                     ([str(int(bool(p[7])))] if len(p) > 7 else [])) for p in ps)
         k = op[0]
         if k == "as":
             return f"as:{op[1]}:{op[2]}"
@@ -135,9 +138,28 @@ class World:
             return f"xm:{op[1]}"
         raise HarnessError(f"unknown op {op!r}")
 
+    @staticmethod
+    def iso_duration(us: int) -> str:
+        return "PT0S" if us == 0 else f"PT{us // 10**6}.{us % 10**6:06d}S"
+
     def _periods_json(self, ps):
-        return [{"pk": p[0], "pid": p[1], "stream": p[2], "ordering": p[3], "start": "PT0S", "duration": "PT0S",
+        return [{"pk": p[0], "pid": p[1], "stream": p[2], "ordering": p[3],
+                 "start": self.iso_duration(p[5] if len(p) > 5 else 0),
+                 "duration": self.iso_duration(p[6] if len(p) > 6 else 0),
                  "tracks": [{"track_id": t, "role": "main"} for t in p[4]]} for p in ps]
+
+    @staticmethod
+    def period_fits(rows: dict, stream_pk: int, start_us: int, dur_us: int) -> bool:
+        """does a Period that starts at a segment boundary `start_us` of the stream's timing reference and lasts
+        `dur_us` end inside the stream?  (The default duration - 0 - is 'to the end of the stream': always fits.)"""
+        from fractions import Fraction
+        if dur_us == 0:
+            return True
+        s = next((s for s in rows["streams"] if s["pk"] == stream_pk), None)
+        if s is None or not s.get("timing"):
+            return True           # refused earlier for another reason
+        md, ts, _ = s["timing"]
+        return Fraction(start_us + dur_us) <= Fraction(md * 10**6, ts)
 
     def apply(self, op: tuple) -> tuple[str, int]:
         """send the request; (result class ok|nf|rej, HTTP status)"""
@@ -264,7 +286,9 @@ class World:
             out = {
                 "streams": [dict(pk=s.pk, dir=s.directory, title=s.title,
                                  tref=(s.timing_ref or {}).get("media_name") if s.timing_ref is not None else None,
-                                 defaults=json.dumps(s.defaults, sort_keys=True, default=str))
+                                 defaults=json.dumps(s.defaults, sort_keys=True, default=str),
+                                 timing=((s.timing_ref["media_duration"], s.timing_ref["timescale"],
+                                          s.timing_ref["segment_duration"]) if s.timing_ref else None))
                             for s in all_(m.Stream)],
                 "files": [dict(pk=f.pk, name=f.name, stream=f.stream_pk, blob=f.blob_pk, indexed=f.rep is not None,
                                track=f.track_id, ctype=f.content_type, enc=bool(f.encrypted))
@@ -396,11 +420,13 @@ class World:
     @staticmethod
     def stream_urls(s: dict) -> tuple:
         return (f"/dash/vod/{s['dir']}/hand_made.mpd", f"/dash/live/{s['dir']}/hand_made.mpd",
-                f"/dash/vod/{s['dir']}/hand_made.mpd?drm=all")
+                f"/dash/vod/{s['dir']}/hand_made.mpd?drm=all",
+                f"/dash/vod/{s['dir']}/hand_made.mpd?timeline=1", f"/dash/live/{s['dir']}/hand_made.mpd?timeline=1")
 
     @staticmethod
     def mps_urls(m: dict) -> tuple:
-        return (f"/mps/vod/{m['name']}/hand_made.mpd", f"/mps/live/{m['name']}/hand_made.mpd")
+        return (f"/mps/vod/{m['name']}/hand_made.mpd", f"/mps/live/{m['name']}/hand_made.mpd",
+                f"/mps/vod/{m['name']}/hand_made.mpd?timeline=1", f"/mps/live/{m['name']}/hand_made.mpd?timeline=1")
 
     # ------------------------------------------------------------------ oracle: deletions (property text)
     DELETING = {"ds": "stream-deletion", "dm": "media-file deletion", "dk": "key deletion",
@@ -446,7 +472,7 @@ class World:
                 if k == "dm":
                     for s in before["streams"]:
                         if s["pk"] == f["stream"] and s["tref"] == f["name"]:
-                            changed[("streams", s["pk"])] = {**s, "tref": None}
+                            changed[("streams", s["pk"])] = {**s, "tref": None, "timing": None}
             if k == "up":
                 affected.add(op[1])
         elif k == "dk":
